@@ -934,7 +934,7 @@ func modeCode(o hx.Opts) {
 var pinnedValues = []string{"", "0", "7", "-7", "+7", " 7", "7 ", "\t7\n", "007", "08", "0x1F", "0X1f", "0x", "0xg", "-0x10", "2#101", "2#102",
 	"16#ff", "16#FF", "36#z", "36#Z", "37#Z", "37#z", "64#@_", "64#_@", "65#1", "1#0", "0#1", "10#09", "16#", "#5", "1a", "a1", "--5", "+-5", "-+5", "- 5",
 	"9223372036854775807", "9223372036854775808", "-9223372036854775808", "-9223372036854775809", "18446744073709551616", "99999999999999999999x",
-	"0x7fffffffffffffff", "0xffffffffffffffff", "64#7__________", "64#8__________", "1_000", "1e3", "1.5", "٣", " 7", "12#b", "12#B", "12#c", "127#1", "128#1", "-128#1", "+16#f", "016#f", "1 2"}
+	"0x7fffffffffffffff", "0xffffffffffffffff", "64#7__________", "64#8__________", "1_000", "1e3", "1.5", "٣", "12#b", "12#B", "12#c", "127#1", "128#1", "-128#1", "+16#f", "016#f", "1 2"}
 
 // ---------------------------------------------------------------- oracle leg
 
